@@ -2,13 +2,16 @@ import Dnp3.Proofs.MeasurementSpec
 /-!
 # C10 — Measurement values survive the trip from outstation database to master handler
 
-Theorems about `Dnp3.Model.Measurement` (tied to the code by the regenerated conversions table
-`Dnp3.Gen.Conv` and by the `convert` correspondence engine).  All statements are for ALL values.
+Theorems about `Dnp3.Model.Measurement` (tied to the code by the regenerated tables of
+`Dnp3.Gen.Conv` -- the 138 `ToVariation` / `From` impls of conversion.rs AND the branch lists of
+`AnalogConversions::{to_i16,to_i32,to_f32}` -- and by the `convert` correspondence engine).  All
+statements are for ALL values.
 
-Known defect of the unchanged tree (DESIGN.md §7 D11): an analog NaN written through an integer
-variation arrives as 0 WITHOUT the OVER_RANGE flag.  Hence `analog_saturates` is stated for every
-non-NaN value (`analog_saturates_partial`), the witness is `analog_nan_unflagged`, and the
-per-variation round trip excludes NaN for integer variations (`roundtrip_representable_partial`).
+Former defect D11 (DESIGN.md §7; repaired in the library): an analog NaN written through an integer
+variation arrived as 0 WITHOUT the OVER_RANGE flag.  `to_i16` / `to_i32` now test `is_nan()` first;
+the generated rows carry that branch, and `analog_saturates_all_values`, `analog_nan_flagged` and
+`roundtrip_representable` are stated for every value, NaN included.  A source without the NaN branch
+regenerates rows for which `Dnp3.Meas.convRow_int` (and with it this module) no longer compiles.
 -/
 namespace Dnp3.Props.C10
 open Dnp3.Meas Dnp3.Gen.Conv
@@ -20,7 +23,7 @@ set_option linter.unusedVariables false
 /-- `flags ||| OVER_RANGE` sets bit 5 and leaves every other bit as it was -/
 theorem over_range_other_bits_untouched (flags i : Nat) :
     (setOverRange flags).testBit i = (flags.testBit i || i == 5) := by
-  unfold setOverRange OVER_RANGE
+  unfold setOverRange OVER_RANGE overRangeMask
   rw [Nat.testBit_or, show (32 : Nat) = 2 ^ 5 from rfl, Nat.testBit_two_pow]
   by_cases h : i = 5
   · subst h; simp
@@ -51,43 +54,106 @@ theorem analog_saturates (N P : Nat) (hNP : P ≤ N) (neg : Bool) (m : Nat) (e :
     · rfl
     · exfalso; simp only [truncInt, if_true] at hgt; omega
 
-example : toInt 32768 32767 (AVal.ofBits 0x40E0001FFFFFFFFF) 1 = (33, 32767) := by decide   -- 32768.99.. saturates
-example : toInt 32768 32767 (AVal.ofBits 0xC0E0000000000000) 1 = (1, -32768) := by decide   -- -32768.0 is in range
-example : toInt 32768 32767 (AVal.ofBits 0xBFE0000000000000) 1 = (1, 0) := by decide        -- -0.5 truncates to 0
+example : toI16 (AVal.ofBits 0x40E0001FFFFFFFFF) 1 = (33, 32767) := by decide   -- 32768.99.. saturates
+example : toI16 (AVal.ofBits 0xC0E0000000000000) 1 = (1, -32768) := by decide   -- -32768.0 is in range
+example : toI16 (AVal.ofBits 0xBFE0000000000000) 1 = (1, 0) := by decide        -- -0.5 truncates to 0
+example : toI16 (AVal.ofBits 0x7FF8000000000000) 1 = (33, 0) := by decide       -- NaN: 0, flagged
 
-/-
-FULL STATEMENT (false on the unchanged tree, see `analog_nan_unflagged`):
-  ∀ v flags, (toI16 v flags).1 = (if v ∉ [MIN, MAX] then setOverRange flags else flags), with NaN
-  counted as not representable (out of range).
--/
+/-- the tie of the analog conversion methods: the rows regenerated from `trait AnalogConversions`
+on this run are one per method, with the target types of the variations they feed; the integer
+methods test `is_nan()`, `< MIN`, `> MAX` in this order, each returning OVER_RANGE-flagged flags
+with 0 / MIN / MAX, and end in `(flags, value as T)`; the float method has the two bound tests only;
+`Self::OVER_RANGE` is bit 5 (0x20), the standard's OVER_RANGE bit of an analog flag octet. -/
+theorem analog_conversions_as_generated :
+    analogConvs = [intRow .toI16 .i16, intRow .toI32 .i32, f32Row] ∧ overRangeMask = 0x20 := by
+  decide
 
-/-- `analog_saturates` for every value except NaN: ±infinity saturate and are flagged, finite
-values follow `analog_saturates`.  Instances: `toI16`, `toI32`. -/
-theorem analog_saturates_partial (v : AVal) (hv : v ≠ .nan) (flags : Nat) :
+/-- the generated rows compute the closed form `toInt` (NaN, then `< MIN`, then `> MAX`, then the
+cast), for both integer widths -/
+theorem analog_conversions_closed_form (v : AVal) (flags : Nat) :
+    toI16 v flags = toInt 32768 32767 v flags ∧ toI32 v flags = toInt 2147483648 2147483647 v flags :=
+  ⟨toI16_eq_toInt v flags, toI32_eq_toInt v flags⟩
+
+/-- `analog_saturates` for EVERY value, NaN included (FULL STATEMENT; `outOfRange` counts NaN and
+±infinity as not representable): what `to_i16` / `to_i32` deliver is the truncation toward zero
+clamped into `[MIN, MAX]` (0 for NaN), and OVER_RANGE is added exactly when the value is not
+representable in `[MIN, MAX]`; otherwise the flags are returned unchanged. -/
+theorem analog_saturates_all_values (v : AVal) (flags : Nat) :
     toI16 v flags =
       (if outOfRange 32768 32767 v then setOverRange flags else flags, clampTrunc 32768 32767 v) ∧
     toI32 v flags =
       (if outOfRange 2147483648 2147483647 v then setOverRange flags else flags,
        clampTrunc 2147483648 2147483647 v) :=
-  ⟨toInt_nonNaN 32768 32767 (by decide) v hv flags,
-   toInt_nonNaN 2147483648 2147483647 (by decide) v hv flags⟩
+  ⟨(toI16_eq_toInt v flags).trans (toInt_spec 32768 32767 (by decide) v flags),
+   (toI32_eq_toInt v flags).trans (toInt_spec 2147483648 2147483647 (by decide) v flags)⟩
 
-example : AVal.inf true ≠ .nan := by decide
+/-- consequence: whatever the value, a result other than the plain in-range truncation is flagged,
+and the delivered integer is always inside `[MIN, MAX]` (never wrapped) -/
+theorem analog_never_silently_changed (v : AVal) (flags : Nat) :
+    (-32768 ≤ (toI16 v flags).2 ∧ (toI16 v flags).2 ≤ 32767) ∧
+    (-2147483648 ≤ (toI32 v flags).2 ∧ (toI32 v flags).2 ≤ 2147483647) ∧
+    (outOfRange 32768 32767 v = true → (toI16 v flags).1 = setOverRange flags) ∧
+    (outOfRange 2147483648 2147483647 v = true → (toI32 v flags).1 = setOverRange flags) ∧
+    (outOfRange 32768 32767 v = false → (toI16 v flags).1 = flags) ∧
+    (outOfRange 2147483648 2147483647 v = false → (toI32 v flags).1 = flags) := by
+  obtain ⟨h16, h32⟩ := analog_saturates_all_values v flags
+  rw [h16, h32]
+  refine ⟨?_, ?_, ?_, ?_, ?_, ?_⟩
+  · cases v with
+    | nan => simp [clampTrunc]
+    | inf neg => cases neg <;> simp [clampTrunc]
+    | fin neg m e => simp only [clampTrunc]; omega
+  · cases v with
+    | nan => simp [clampTrunc]
+    | inf neg => cases neg <;> simp [clampTrunc]
+    | fin neg m e => simp only [clampTrunc]; omega
+  · intro h; simp [h]
+  · intro h; simp [h]
+  · intro h; simp [h]
+  · intro h; simp [h]
 
-/-- D11 witness: NaN through an integer conversion gives 0 and the flags unchanged — OVER_RANGE is
-not set although NaN is not representable.  (`0x7FF8000000000000` is the canonical quiet NaN.) -/
-theorem analog_nan_unflagged :
+/-- former D11, now the repaired behaviour: NaN through an integer conversion gives 0 WITH
+OVER_RANGE, whatever the recorded flags.  (`0x7FF8000000000000` is the canonical quiet NaN;
+ONLINE = 1, ONLINE|OVER_RANGE = 33.) -/
+theorem analog_nan_flagged :
     AVal.ofBits 0x7FF8000000000000 = .nan ∧
-    toI16 .nan 1 = (1, 0) ∧ toI32 .nan 1 = (1, 0) ∧
-    (∀ flags, toI16 .nan flags = (flags, 0) ∧ toI32 .nan flags = (flags, 0)) := by
-  refine ⟨by decide, rfl, rfl, fun _ => ⟨rfl, rfl⟩⟩
+    toI16 .nan 1 = (33, 0) ∧ toI32 .nan 1 = (33, 0) ∧
+    (∀ flags, toI16 .nan flags = (setOverRange flags, 0) ∧ toI32 .nan flags = (setOverRange flags, 0)) := by
+  refine ⟨by decide, by decide, by decide, fun flags => ?_⟩
+  have h := analog_saturates_all_values .nan flags
+  simpa [outOfRange, clampTrunc] using h
 
-/-- the same witness end to end through the generated rows of g30v1 (ONLINE NaN in, ONLINE 0 out) -/
-theorem analog_nan_unflagged_g30v1 :
+/-- every NaN bit pattern (any sign, any payload, quiet or signalling) decodes to `.nan` -/
+theorem nan_patterns_decode (b : Nat) (hex : b / 2 ^ 52 % 2048 = 2047) (hm : b % 2 ^ 52 ≠ 0) :
+    AVal.ofBits b = .nan := by
+  simp [AVal.ofBits, hex, hm]
+
+example : 0xFFF0000000000001 / 2 ^ 52 % 2048 = 2047 ∧ 0xFFF0000000000001 % 2 ^ 52 ≠ 0 := by decide
+
+/-- the same end to end through the generated rows of g30v1 (ONLINE NaN in, ONLINE|OVER_RANGE 0 out) -/
+theorem analog_nan_flagged_g30v1 :
     (do let e ← lookupTo .ai 30 1
         let f ← lookupFrom .ai 30 1
         pure (fromVariation f (toVariation e ⟨0x7FF8000000000000, 1, none⟩ 0x7FC00000)))
-      = some ⟨0, 1, none⟩ := by decide
+      = some ⟨0, 33, none⟩ := by decide
+
+/-- representable values arrive unchanged: a finite value that IS an integer `±k` of the range
+(`isInteger m e k`: its exact value `m·2^e` equals `k`) is delivered as exactly that integer with
+the flags untouched, by both integer conversions -/
+theorem analog_representable_unchanged (neg : Bool) (m : Nat) (e : Int) (k : Nat) (flags : Nat)
+    (hk : isInteger m e k) :
+    ((if neg then k ≤ 32768 else k ≤ 32767) →
+      toI16 (.fin neg m e) flags = (flags, if neg then -((k : Nat) : Int) else ((k : Nat) : Int))) ∧
+    ((if neg then k ≤ 2147483648 else k ≤ 2147483647) →
+      toI32 (.fin neg m e) flags = (flags, if neg then -((k : Nat) : Int) else ((k : Nat) : Int))) :=
+  ⟨fun hin => (toI16_eq_toInt _ flags).trans (toInt_integer 32768 32767 neg m e k flags hk hin),
+   fun hin => (toI32_eq_toInt _ flags).trans (toInt_integer 2147483648 2147483647 neg m e k flags hk hin)⟩
+
+-- -32768.0 = -(2^52 · 2^-37): m = 2^52, e = -37, k = 32768
+example : AVal.ofBits 0xC0E0000000000000 = .fin true (2 ^ 52) (-37) ∧ isInteger (2 ^ 52) (-37) 32768 := by
+  refine ⟨by decide, ?_⟩
+  unfold isInteger
+  decide
 
 /-- the float conversion: saturation to ±`f32::MAX` with OVER_RANGE exactly when the magnitude
 exceeds `f32::MAX`; otherwise the flags are unchanged and the value is the supplied rounding -/
@@ -249,21 +315,15 @@ theorem tables_realise_spec :
     toTable.length = 69 ∧ fromTable.length = 69 ∧ implCount = 138 := by
   refine ⟨by decide +kernel, by decide +kernel, by decide +kernel, by decide, by decide, by decide⟩
 
-/-
-FULL STATEMENT `roundtrip_representable` (false on the unchanged tree because of D11): the
-statement below without the hypothesis `hnan`, where for NaN `carry` demands OVER_RANGE.
--/
-
-/-- `roundtrip_representable` (NaN into integer variations excluded, see D11): for EVERY
-(type, variation) pair of the generated conversions table and EVERY measurement, converting to
-the variation on the outstation and back on the master yields exactly what the variation can
-carry.  (Field level; the octet encoding of fields is C09's subject.  Index preservation is
-part of the correspondence engine.) -/
-theorem roundtrip_representable_partial :
+/-- `roundtrip_representable` (FULL STATEMENT, no exception: for NaN into an integer variation
+`carry` demands 0 and OVER_RANGE): for EVERY (type, variation) pair of the generated conversions
+table and EVERY measurement, converting to the variation on the outstation and back on the master
+yields exactly what the variation can carry.  (Field level; the octet encoding of fields is C09's
+subject.  Index preservation is part of the correspondence engine.) -/
+theorem roundtrip_representable :
     ∀ e ∈ toTable, ∃ s ∈ specTable, ∃ f ∈ fromTable,
       s.ty = e.ty ∧ s.group = e.group ∧ s.var = e.var ∧ f.ty = e.ty ∧ f.group = e.group ∧ f.var = e.var ∧
       ∀ (m : Meas) (r32 : Nat),
-        ((s.kind = .i16 ∨ s.kind = .i32) → AVal.ofBits m.val ≠ .nan) →
         fromVariation f (toVariation e m r32) = carry s m r32 := by
   have allOk : ∀ s ∈ specTable, specOk s = true := by decide
   intro e he
@@ -276,16 +336,19 @@ theorem roundtrip_representable_partial :
   · have := congrArg FromVar.ty hsf; rw [← hse]; simpa [expectedFrom, normFrom, expectedTo] using this.symm
   · have := congrArg FromVar.group hsf; rw [← hse]; simpa [expectedFrom, normFrom, expectedTo] using this.symm
   · have := congrArg FromVar.var hsf; rw [← hse]; simpa [expectedFrom, normFrom, expectedTo] using this.symm
-  · intro m r32 hnan
+  · intro m r32
     rw [← hse, ← fromVariation_norm f, ← hsf]
-    exact roundtrip_expected s (allOk s hs) m r32 hnan
+    exact roundtrip_expected s (allOk s hs) m r32
 
 example : (⟨.ai, 30, 2, .i16, true, false⟩ : VSpec) ∈ specTable := by decide
-example : AVal.ofBits 0x40E0001FFFFFFFFF ≠ .nan := by decide
 
 /-- consequence, spelled out for one row: g30v2 of an ONLINE 40000.0 arrives as 32767.0 with
 ONLINE|OVER_RANGE -/
 example : carry ⟨.ai, 30, 2, .i16, true, false⟩ ⟨0x40E3880000000000, 1, none⟩ 0 = ⟨0x40DFFFC000000000, 33, none⟩ := by
+  decide
+
+/-- and for the former D11 input: g30v2 of an ONLINE NaN must arrive as 0.0 with ONLINE|OVER_RANGE -/
+example : carry ⟨.ai, 30, 2, .i16, true, false⟩ ⟨0x7FF8000000000000, 1, none⟩ 0x7FC00000 = ⟨0, 33, none⟩ := by
   decide
 
 end Dnp3.Props.C10
